@@ -275,10 +275,7 @@ class Arm(Robot):
                 goal_position.gTM(), theta_init,
                 self.rot_tolerance, self.pos_tolerance, max_iters=max_iters)
         theta = fsr.angleMod(theta)
-        self._theta = theta
-        if success:
-            self._end_effector_pos_global = goal_position
-        else:
+        if not success:
             if check:
                 i = 0
                 while i < level and success == 0:
@@ -290,8 +287,8 @@ class Arm(Robot):
                             goal_position.gTM(), theta_init,
                             self.rot_tolerance, self.pos_tolerance, max_iters=max_iters)
                     i = i + 1
-                if success:
-                    self._end_effector_pos_global = goal_position
+        # The published pose is the pose of the stored joint vector, reached or not
+        self.FK(theta, protect = True)
         return theta, success
 
     def constrainedIK(self, goal_position : tm, theta_init : 'np.ndarray[float]' = None,
